@@ -504,6 +504,105 @@ def expected (g : Geometry) (opts : EncOpts) : Geometry :=
   { isMesh := g.isMesh, numPoints := g.numPoints, faces := if g.isMesh then g.faces else [],
     atts := (zipIdxFrom 0 g.atts).map fun ia => expectedAttributeOf opts g.numPoints ia.1 ia.2 }
 
+/-- what a decode with `SetSkipAttributeTransform` for the attribute types `skip` returns for the
+    encoder state `e`: attributes of the integer-family encoders whose type is skipped come back as
+    their portable attribute (int32 values, transform data attached, `CopyFrom(*portable_attribute)`),
+    everything else as in the ordinary decode -/
+def expectedAttributeSkip (skip : List Nat) (numPoints : Nat) (a : Attribute) (e : AttEnc) : Attribute :=
+  if e.encType != 0 && skip.contains a.attType then
+    { attType := a.attType, dataType := Generated.DT_INT32.toNat,
+      numComponents := if e.encType == 3 then 2 else a.numComponents, normalized := false,
+      uniqueId := a.uniqueId, numValues := numPoints, map := none,
+      values := (e.portable.map (intToLE 4)).flatten, transform := e.transform }
+  else expectedAttribute numPoints a e
+
+def expectedGeometrySkip (skip : List Nat) (g : Geometry) (encs : List AttEnc) : Geometry :=
+  { isMesh := g.isMesh, numPoints := g.numPoints, faces := if g.isMesh then g.faces else [],
+    atts := List.zipWith (expectedAttributeSkip skip g.numPoints) g.atts encs }
+
+/-- the portable (int32) values and the transform data of attribute `i`, from input and options alone -/
+def portableOf (opts : EncOpts) (numPoints i : Nat) (a : Attribute) : List Int × TransformData :=
+  let o := opts.att i
+  let rows := pointRows a numPoints
+  match encoderType a o with
+  | 0 => ([], .none)
+  | 1 => ((integerPortable a rows).getD [], .none)
+  | 2 =>
+    (match quantizationParams a o with
+     | some (mins, range, q) => (quantizedPortable mins range q a.numComponents rows, .quantization q mins range)
+     | none => ([], .none))
+  | _ =>
+    (match Octa.init o.quantBits.toNat with
+     | some t => (octaPortable t rows, .octahedron o.quantBits.toNat)
+     | none => ([], .none))
+
+/-- choice-free form of `expectedAttributeSkip` -/
+def expectedSkipAttributeOf (skip : List Nat) (opts : EncOpts) (numPoints i : Nat) (a : Attribute) : Attribute :=
+  let ty := encoderType a (opts.att i)
+  if ty != 0 && skip.contains a.attType then
+    { attType := a.attType, dataType := Generated.DT_INT32.toNat,
+      numComponents := if ty == 3 then 2 else a.numComponents, normalized := false,
+      uniqueId := a.uniqueId, numValues := numPoints, map := none,
+      values := ((portableOf opts numPoints i a).1.map (intToLE 4)).flatten,
+      transform := (portableOf opts numPoints i a).2 }
+  else expectedAttributeOf opts numPoints i a
+
+/-- `expectedSkip S g opts`: what decoding the encoded `g` with the attribute transforms of the types
+    in `S` skipped must return -/
+def expectedSkip (skip : List Nat) (g : Geometry) (opts : EncOpts) : Geometry :=
+  { isMesh := g.isMesh, numPoints := g.numPoints, faces := if g.isMesh then g.faces else [],
+    atts := (zipIdxFrom 0 g.atts).map fun ia => expectedSkipAttributeOf skip opts g.numPoints ia.1 ia.2 }
+
+/-- what the application (or `Spec.skipCheck`) does with an attribute whose transform was skipped:
+    reinterpret the values as int32 and apply the inverse transform described by the attached
+    transform data (`InverseTransformAttribute`; for plain integer attributes the narrowing cast of
+    `StoreValues` to the original data type `dt`) -/
+def applySkippedTransform (dt : Nat) (s : Attribute) : Bytes :=
+  let portable := (leGroups 4 s.values).map (toSigned 32)
+  match s.transform with
+  | .none => (portable.map (intToLE (dataTypeLength dt))).flatten
+  | .quantization bits mins range => (dequantAll range bits.toNat mins portable mins []).flatten
+  | .octahedron bits => (octaAll bits.toNat portable []).flatten
+
+/-- `InverseTransformAttribute` of the quantization transform on the quantized values of one point -/
+def dequantRow (range bits : Nat) (mins : List Nat) (ks : List Int) : Bytes :=
+  (List.zipWith (fun m k => writeLE 4 (Leaf.dequant range bits m k)) mins ks).flatten
+
+/-- `InverseTransformAttribute` of the octahedron transform on the coordinates of one point -/
+def octaRowDecode (q : Nat) (st : List Int) : Bytes :=
+  match st with
+  | [a, b] =>
+    let xyz := Leaf.octaToUnit q a b
+    writeLE 4 xyz.1 ++ writeLE 4 xyz.2.1 ++ writeLE 4 xyz.2.2
+  | _ => []
+
+/-- what encode + decode do to the value row of ONE point of attribute `i`: nothing (generic and
+    integer encoders), `dequantize ∘ quantize`, or `octahedral decode ∘ encode` -/
+def transformRow (opts : EncOpts) (i : Nat) (a : Attribute) (row : Bytes) : Bytes :=
+  let o := opts.att i
+  match encoderType a o with
+  | 0 => row
+  | 1 => row
+  | 2 =>
+    (match quantizationParams a o with
+     | some (mins, range, q) =>
+       dequantRow range q mins (quantizeRow mins range q 0 (rowF32s a.numComponents row))
+     | none => [])
+  | _ =>
+    (match Octa.init o.quantBits.toNat with
+     | some t => octaRowDecode o.quantBits.toNat (octaRow t row)
+     | none => [])
+
+/-- the quantization request of the options in the form `Spec.check` takes it: unique id ↦ bits for
+    the attributes that go through the quantization or the normal encoder -/
+def quantReq (g : Geometry) (opts : EncOpts) : List (Nat × Nat) :=
+  (zipIdxFrom 0 g.atts).filterMap fun ia =>
+    if encoderType ia.2 (opts.att ia.1) ≥ 2 then some (ia.2.uniqueId, (opts.att ia.1).quantBits.toNat)
+    else none
+
+/-- all attribute types: the skip set of the "all transforms skipped" decode -/
+def allTypes : List Nat := [0, 1, 2, 3, 4]
+
 /-- float oracle hypothesis for one normal: the first rounded coordinate computed by
     `FloatVectorToQuantizedOctahedralCoords` has magnitude at most `center_value_` (holds for every
     input as far as tested — the driver op `seqenc` evaluates it on every case; it cannot be proved
@@ -514,5 +613,13 @@ def octaRowOK (t : OctaT) (row : Bytes) : Bool :=
     decide (iabs (Octa.floatVecRound t (Float32.ofBits x.toUInt32, Float32.ofBits y.toUInt32,
       Float32.ofBits z.toUInt32)).1 ≤ t.center)
   | _ => true
+
+/-- output-level form of the hypothesis on normals (weaker than `octaRowOK`, which implies it —
+    `octaRow_entry`): the octahedral coordinates the encoder computed for this normal are a canonical
+    point of the grid `[0, max_value_]²` -/
+def octaEntryOK (t : OctaT) (e : List Int) : Bool :=
+  match e with
+  | [a, b] => decide (Octa.inGrid t (a, b)) && decide (Octa.canonical t (a, b))
+  | _ => false
 
 end Draco.SeqEnc
